@@ -98,7 +98,7 @@ def implLoop : Nat → DSetData → List (Nat × Nat) → Outcome (Option DSetDa
     | _ => .panic
 
 /-- number of undefined entries of the table -/
-def zeros (a : Array Nat) : Nat := a.toList.count 0
+def zeros (a : Array Nat) : Nat := a.count 0
 
 /-- `check_and_apply_implications(&mut dset, idx, elm)`: `ok none` = false,
     `ok (some ds')` = true with the updated set.  Every push is preceded by a `set`
